@@ -613,6 +613,9 @@ def show_drift_force_constants(
                 force_constants, permutations, s2pp_map, p2s_map, nsym_list
             )
             maxval1, jk1 = _get_drift_per_index(force_constants)
+            # The transposed array also has transposed 3x3 blocks: the component
+            # pair found there is (b, a) of the original array.
+            jk1 = jk1[::-1]
             phonoc.transpose_compact_fc(
                 force_constants, permutations, s2pp_map, p2s_map, nsym_list
             )
